@@ -63,3 +63,21 @@ def c06(ck, tier, seed):
 
 REGISTER = {"C06": (c06, "model_checking")}
 TRACE_MODULE = {}
+
+
+ALL_FEATURES = ["idx,cache,mt", "idx,cache", "idx,mt", "idx", "ptr,cache,mt", "ptr,cache", "ptr,mt", "ptr"]
+
+
+def c20(ck, tier, seed):
+    ck.cov["rule"] = ("V: seeded random histories (all operators, gc, reordering for BDD/BCDD, add_vars) recorded with the default build and "
+                      "re-executed call by call in all 8 builds {manager-index, manager-pointer} x {apply cache on, off} x "
+                      "{multi-threading on, off} with 2 threads (quick) / 1, 2, 8 threads (thorough); every execution is validated on "
+                      "its own by TraceManager (semantics, canonicity, structural and reference-count invariants on snapshots), the "
+                      "product trace by TraceConfig (same truth table, node count, order per call in every configuration)")
+    base = {"count": 25 if tier == "quick" else 250, "nmax": 5, "steps": 50}
+    variants = [{"threads": 2}] if tier == "quick" else [{"threads": 1}, {"threads": 2}, {"threads": 8, "split": 4}]
+    _record_and_replay(ck, "C20", tier, seed, base, variants, features_list=ALL_FEATURES)
+    ck.assumptions += ["features hugealloc / statistics / parking_lot are not varied", "MTBDD exists on the index backend only"]
+
+
+REGISTER["C20"] = (c20, "model_checking")
